@@ -191,14 +191,21 @@ class ScriptedPeer(object):
                     self.cur = self.cur + line
                 continue
             self.commands.append(line)
-            verb = line.split(None, 1)[0].upper() if line.strip() else b''
-            stage = verb.decode('ascii', 'replace')
+            if self.mode == 'auth':
+                # a response to a 334 challenge: the AUTH stage goes on
+                self.mode = 'cmd'
+                stage = 'AUTH'
+            else:
+                verb = line.split(None, 1)[0].upper() if line.strip() else b''
+                stage = verb.decode('ascii', 'replace')
             if stage not in ('EHLO', 'HELO', 'LHLO', 'STARTTLS', 'AUTH',
                              'MAIL', 'RCPT', 'DATA', 'RSET', 'QUIT', 'NOOP'):
                 stage = 'other'
             code = self._act(stage, line)
             if code is None:
                 continue
+            if stage == 'AUTH' and code == '334':
+                self.mode = 'auth'
             if stage == 'DATA' and code == '354':
                 self.mode = 'data'
             elif stage == 'RCPT' and code[0:1] == '2':
